@@ -199,6 +199,17 @@ def apply_event(s, ev):
         for lp, lt, lv in xt.leaf_paths(ft, val):
             if lt[0] == "Str" and any(q in ("*", "#") for q in lp):
                 s.rooms[tuple(path) + tuple(lp)] = string_room(lv)
+    elif kind == "bind2":
+        _, via, pa, pb, (m, fv) = ev
+        fo = xt.construct(m, xt.to_py(m, fv), _buffer=place.traced("np", 0))
+        for pth in (pa, pb):
+            rt, _ = type_at(s.t, s.mv, pth)
+            do_set(s, via, pth, fo)
+            s.mv = xt.set_path(s.mv, pth, fv if rt[0] == "R" else (list(rt[1]).index(m), fv))
+            for lp, lt, lv in xt.leaf_paths(rt, fv if rt[0] == "R" else (list(rt[1]).index(m), fv)):
+                if lt[0] == "Str":
+                    s.rooms[tuple(pth) + tuple(lp)] = string_room(lv)
+        s.keep = getattr(s, "keep", []) + [fo]
     elif kind == "grow":
         b = s.h._buffer
         cap = b.capacity
@@ -368,6 +379,26 @@ def events(s, opts, depth_now):
                         fv = same_size_alt(m0, xt.gen(m0, "alt", xt.Ctr(400)), n)
                         if xt.py_expressible(m0, fv):
                             evs.append(("setc", via, path, "member-foreign", (0, fv)))
+    if opts.get("compounds", True) and xt.has_refs(t) and opts.get("bind2", True):
+        # ONE object living in another buffer, left as it is, bound to TWO reference slots that take its type (plain and
+        # union references): each slot gets an independent copy; the deeper levels write through one of them
+        slots = [(p_, rt) for p_, rt, rv in ref_slots(t, mv) if p_]
+        pairs = 0
+        for a in range(len(slots)):
+            for b in range(a + 1, len(slots)):
+                (pa, ta), (pb, tb) = slots[a], slots[b]
+                # (a slot below another reference of the pair would be replaced by the first binding)
+                if pairs >= 2 or pa == pb[: len(pa)] or pb == pa[: len(pb)]:
+                    continue
+                common_t = [m for m in ([ta[1]] if ta[0] == "R" else list(ta[1])) if m in ([tb[1]] if tb[0] == "R" else list(tb[1]))]
+                common_t = [m for m in common_t if not xt.has_refs(m) and m[0] in ("St", "A")]
+                if not common_t:
+                    continue
+                m = common_t[0]
+                fv = xt.gen(m, "alt", xt.Ctr(500 + n))
+                if xt.py_expressible(m, fv):
+                    evs.append(("bind2", vias[0], pa, pb, (m, fv)))
+                    pairs += 1
     if opts.get("grow", True) and s.pl.buf is not None:
         evs.append(("grow",))
     return evs
